@@ -213,6 +213,9 @@ func handleUsers(params internal.HandlerFuncParams) ([]byte, error) {
 		return nil, errors.New("could not load ACL")
 	}
 
+	acl.RLockUsers()
+	defer acl.RUnlockUsers()
+
 	res := fmt.Sprintf("*%d", len(acl.Users))
 	for _, user := range acl.Users {
 		res += fmt.Sprintf("\r\n$%d\r\n%s", len(user.Username), user.Username)
